@@ -188,6 +188,15 @@ func startV1Race(r *core.Run) *raceJob {
 				os.WriteFile(sumfile, sum, 0o644)
 			}
 		}
+		// leftovers of runs on scratch checkouts that were killed before they could clean up
+		for _, pat := range []string{"vh-race-*-*", "c17race-*.mod", "c17race-*.sum"} {
+			old, _ := filepath.Glob(filepath.Join(build, pat))
+			for _, f := range old {
+				if st, err := os.Stat(f); err == nil && time.Since(st.ModTime()) > 2*time.Hour && !strings.Contains(f, "c17race-"+tag+".") {
+					os.Remove(f)
+				}
+			}
+		}
 		bin := filepath.Join(build, "vh-race")
 		scratch := filepath.Clean(acra) != "/repo"
 		if scratch {
@@ -274,8 +283,14 @@ func (j *raceJob) finish(r *core.Run) {
 	<-j.done
 	r.Begin("v1race:"+j.line, true, "mode:v1-race")
 	// in-process, without the race detector: every key returned must still be complete and correct
-	out := r.ImplIsolated(j.line, 120*time.Second)
-	judgeV1(r, out, raceCacheSize)
+	raced := j.mode == "race-detector" && (j.exit == 66 || strings.Contains(j.stderr, "WARNING: DATA RACE"))
+	out := "(not run: the race-detector child returned " + j.stdout + ")"
+	if j.mode != "race-detector" || j.exit != 0 || !strings.HasPrefix(j.stdout, "ok ") {
+		// the same workload in a plain child process: the probabilistic check when there is no race binary, and
+		// the replayable op line of a failure otherwise
+		out = r.ImplIsolated(j.line, 120*time.Second)
+		judgeV1(r, out, raceCacheSize)
+	}
 	info := map[string]any{"mode": j.mode, "op": j.line, "build_s": round1(j.buildS), "run_s": round1(j.runS)}
 	if j.mode != "race-detector" {
 		r.Tag("v1race:fallback-probabilistic")
@@ -289,7 +304,6 @@ func (j *raceJob) finish(r *core.Run) {
 	info["child_out"] = j.stdout
 	info["reproduce"] = j.command
 	r.Extra["v1race"] = info
-	raced := j.exit == 66 || strings.Contains(j.stderr, "WARNING: DATA RACE")
 	switch {
 	case raced:
 		r.Fail("v1-shared-handle-data-race", fmt.Sprintf("data race in the shared v1 key store (cache size %d, %d goroutines, %d clients; race-detector build, exit %d): %s   [reproduce: %s]",
